@@ -45,11 +45,13 @@ func (l *striplock) byHashAndHeight(datahash share.DataHash, height uint64) *mul
 func (m *multiLock) lock() {
 	for _, lk := range m.mu {
 		lk.Lock()
+		verifMarkLock("mlock.acq", lk)
 	}
 }
 
 func (m *multiLock) unlock() {
 	for _, lk := range m.mu {
+		verifMarkLock("mlock.rel", lk)
 		lk.Unlock()
 	}
 }
